@@ -105,7 +105,8 @@ def _adv():
     def rng(s, c):
         a = s.wire('a', c['w']); r = s.wire('r', c['rw'])
         return B.Range(s, 'rng', a, c['high'], c['low'], r), {'a': a}, {'r': r}
-    D['Range'] = (rng, [dict(w=8, high=5, low=2, rw=4), dict(w=8, high=5, low=2, rw=2), dict(w=4, high=6, low=2, rw=5)])
+    D['Range'] = (rng, [dict(w=8, high=5, low=2, rw=4), dict(w=8, high=5, low=2, rw=2), dict(w=4, high=6, low=2, rw=5),
+                        dict(w=8, high=3, low=0, rw=8), dict(w=8, high=3, low=0, rw=6), dict(w=8, high=0, low=0, rw=4)])   # low == 0, result wider than the field
     def sext(s, c):
         a = s.wire('a', c['w']); r = s.wire('r', c['rw'])
         return A.SignExtend(s, 'sx', a, r), {'a': a}, {'r': r}
